@@ -178,10 +178,10 @@ package abi
 //@   loop 1 invariant 0 <= i && i <= hdr.SectionCount && len(sections) == i && (ref(sections) == 0 || fresh(sections)) && alloc <= 64 * i + 256 && unchanged(content(data))
 //@   loop 1 invariant rdLeft[buf] == len(data) - 16 - 32 * i && len(brSrc[buf]) == rdLeft[buf] && ref(brSrc[buf]) == ref(data) && off(brSrc[buf]) == off(data) + 16 + 32 * i
 //@   loop 1 invariant 0 <= a && a < i ==> sections[a] != nil && fresh(sections[a])
-//@   loop 1 invariant 0 <= a && a < i ==> sections[a].DataOffset == le32(data, 16+32*a) && sections[a].DataSize == le32(data, 20+32*a)
-//@   loop 1 invariant 0 <= a && a < i ==> sections[a].MemoryBase == le64(data, 24+32*a)
-//@   loop 1 invariant 0 <= a && a < i ==> sections[a].MemorySize == le64(data, 32+32*a)
-//@   loop 1 invariant 0 <= a && a < i ==> sections[a].SectionType == le32(data, 40+32*a) && sections[a].Attributes == le32(data, 44+32*a)
+//@   loop 1 invariant[C18,C05,slow] 0 <= a && a < i ==> sections[a].DataOffset == le32(data, 16+32*a) && sections[a].DataSize == le32(data, 20+32*a)
+//@   loop 1 invariant[C18,C05,slow] 0 <= a && a < i ==> sections[a].MemoryBase == le64(data, 24+32*a)
+//@   loop 1 invariant[C18,C05,slow] 0 <= a && a < i ==> sections[a].MemorySize == le64(data, 32+32*a)
+//@   loop 1 invariant[C18,C05,slow] 0 <= a && a < i ==> sections[a].SectionType == le32(data, 40+32*a) && sections[a].Attributes == le32(data, 44+32*a)
 //@   loop 1 invariant forall(r, Int, !fresh(r) ==> rdLeft[r] == old(rdLeft)[r] && same(brSrc[r], old(brSrc)[r]))
 //@   loop 1 decreases[C08] hdr.SectionCount - i
 
